@@ -602,6 +602,20 @@ func runC03(c *Ctx) {
 			// the QueryMeta argument: a struct value; find the store into its FromUDP field
 			val := "unset"
 			meta := ci.Call.Args[2]
+			// the struct is built by the caller of a NEW per-query function and handed in as a parameter
+			if prm, isP := meta.(*ssa.Parameter); isP && isNewHelper(top) && prm.Parent() == top {
+				idx := -1
+				for i, q := range top.Params {
+					if q == prm {
+						idx = i
+					}
+				}
+				if sites, asValue := callSitesOf(top); idx >= 0 && !asValue && len(sites) == 1 {
+					if cc, ok := sites[0].(ssa.CallInstruction); ok && idx < len(cc.Common().Args) {
+						meta = cc.Common().Args[idx]
+					}
+				}
+			}
 			if ld, ok := meta.(*ssa.UnOp); ok && ld.Op == token.MUL {
 				if al, ok := ld.X.(*ssa.Alloc); ok {
 					for _, r := range referrers(al) {
